@@ -121,7 +121,7 @@ func (o *script) RoundTrip(req *http.Request) (*http.Response, error) {
 var modes = []string{"", "local", "fastlocal", "local:force", "force", "none", "local:demangle=full", "local:demangle=none", "local:demangle=templates", "demangle=default", "remote", "remote:force", "local:remote", "fastlocal:force:demangle=full", "bogus", "none:force"}
 
 func genProfile(r *rand.Rand) *profile.Profile {
-	m1 := &profile.Mapping{ID: 1 + uint64(r.Intn(2))*10, Start: 0x1000, Limit: 0x2000, File: []string{"/bin/binA", "http://host/debug/pprof/profile", "[vdso]", ""}[r.Intn(4)]}
+	m1 := &profile.Mapping{ID: 1 + uint64(r.Intn(2))*10, Start: 0x1000, Limit: 0x2000, File: []string{"/bin/binA", "http://host/debug/pprof/profile", "[vdso]", "", "/opt/app/100%_native/server", ":foo", "1:a/b", "/a\x7fb/c", "https://host:x/y", "http://[::1"}[r.Intn(10)]}
 	m2 := &profile.Mapping{ID: 2, Start: 0x3000, Limit: 0x4000, Offset: 0x1000, File: "/lib/binB"}
 	if r.Intn(3) == 0 {
 		// two objects reported at the same addresses: equal addresses in different mappings
